@@ -26,7 +26,7 @@ func (c05) RequiredBuckets(tier string) []string {
 	for _, k := range []string{"point", "site", "range", "prange", "ambiguous", "join", "order", "c-range", "c-join", "c-order"} {
 		out = append(out, "kind|"+k)
 	}
-	return out
+	return append(out, "cli:reverse", "cli:complement")
 }
 func (c05) Findings() []fw.Finding {
 	return []fw.Finding{
@@ -454,4 +454,5 @@ func (m c05) Run(c *fw.Ctx) {
 		}
 		m.checkSeq(c, tab, hostB, alpha)
 	}
+	cliReverseComplement(c)
 }
